@@ -42,15 +42,16 @@ class Ob:
     def result(self, it=None, witness=None):
         if isinstance(witness, (list, tuple)):
             # [(substring of the failed requirement, witness name), ...]: first match on the first failure wins
-            chosen = None
+            # every specific pattern that matches some failure contributes its witness (tried in order until one fails natively);
+            # the catch-all "" entry is used only when nothing specific matched
+            chosen = []
             for f in self.failures:
                 for sub, w in witness:
-                    if sub in f["what"]:
-                        chosen = w
-                        break
-                if chosen:
-                    break
-            witness = chosen or (witness[-1][1] if witness else None)
+                    if sub and w and sub in f["what"] and w not in chosen:
+                        chosen.append(w)
+            if not chosen:
+                chosen = [w for sub, w in witness if sub == "" and w] or ([witness[-1][1]] if witness and witness[-1][1] else [])
+            witness = "+".join(dict.fromkeys("+".join(chosen).split("+"))) if chosen else None
         d = {"id": self.id, "engine": "smt", "doc": self.doc, "notes": self.notes[:6], "bounds": self.bounds,
              "queries": self.queries + (it.queries if it else 0), "obligation_queries": self.queries, "time_s": round(time.time() - self.t0, 2),
              "paths": self.paths, "truncated_paths": self.truncated, "source_fn": self.fn.name if self.fn else None}
@@ -3630,7 +3631,7 @@ def site_destination_guard(fns):
     removers = [n for n, f in fns.items() if "src/core/store/migration.rs" in n and "remove_file::<" in f.text]
     ob.must_hold(all(n.endswith("::publish") or n.endswith("::rollback_publication") or n.endswith("::drop") for n in removers), "no other migration function removes a file")
     ob.queries += 8
-    return ob.result(it, witness="c15_migration_is_faithful")
+    return ob.result(it, witness="c15_migration_is_faithful+c15_destination_race")
 
 
 def site_migrate(fns):
@@ -3823,7 +3824,7 @@ def site_publish(fns):
                     ob.need(itg, rb.pc, itg.ctx.disc(itg.as_u(hl[-1].ret)) == 0, "the destination name is removed only after this guard's own link SUCCEEDED")
         ob.queries += itg.queries
     ob.must_hold(callers >= 1, "a caller of rollback_publication was analysed")
-    return ob.result(it, witness=[("rollback_publication in", "c15_destination_race"), ("own link SUCCEEDED", "c15_destination_race"), ("", "c15_migration_is_faithful")])
+    return ob.result(it, witness=[("rollback_publication in", "c15_destination_race"), ("own link SUCCEEDED", "c15_destination_race"), ("", "c15_migration_is_faithful+c15_destination_race")])
 
 
 # ============================================================================ range queries
